@@ -1,13 +1,267 @@
 package main
 
+// selftest.go: the checker's own test – a corpus of behaviour-breaking,
+// still-compiling mutants of the *current* tree.  Each is written to a
+// scratch copy outside /repo and /verif, analysed in a fresh process, and
+// must be reported with the mutated construct's rule.  The self-test
+// measures the checker; it never contributes to a property verdict.
+
+import (
+	"bufio"
+	"bytes"
+	"encoding/json"
+	"fmt"
+	"io"
+	"os"
+	"os/exec"
+	"path/filepath"
+	"sort"
+	"strings"
+	"sync"
+)
+
+// Mutant is one textual rewrite of a production file. Text matching is used
+// here only to *produce* test inputs for the checker, never to decide.
+type Mutant struct {
+	ID    string
+	Rules []string // the rule(s) expected to report it (any of them)
+	File  string
+	// After: the replacement is applied to the first occurrence of Old that
+	// follows the first occurrence of After ("" = start of file).
+	After string
+	Old   string
+	New   string
+	// Expect: substring that must occur in the key of a new violation ("" = any).
+	Expect string
+	Note   string
+}
+
 type selftestResult struct {
 	Applicable    int      `json:"mutants_applicable"`
 	Killed        int      `json:"mutants_killed"`
 	NotApplicable []string `json:"not_applicable"`
 	Survived      []string `json:"survived"`
 	KilledIDs     []string `json:"killed"`
+	Positive      []string `json:"positive_controls,omitempty"`
 }
 
-func runSelftest(rs []*Rule, jobs int, filter string) selftestResult { return selftestResult{} }
+func copyTree(src, dst string) error {
+	entries, err := os.ReadDir(src)
+	if err != nil {
+		return err
+	}
+	if err := os.MkdirAll(dst, 0o755); err != nil {
+		return err
+	}
+	for _, e := range entries {
+		n := e.Name()
+		if e.IsDir() {
+			continue
+		}
+		if !(strings.HasSuffix(n, ".go") || n == "go.mod" || n == "go.sum") || strings.HasSuffix(n, "_test.go") {
+			continue
+		}
+		in, err := os.Open(filepath.Join(src, n))
+		if err != nil {
+			return err
+		}
+		out, err := os.Create(filepath.Join(dst, n))
+		if err != nil {
+			in.Close()
+			return err
+		}
+		_, err = io.Copy(out, in)
+		in.Close()
+		out.Close()
+		if err != nil {
+			return err
+		}
+	}
+	return nil
+}
 
-func runSelftestCLI() int { return 0 }
+func applyMutant(dir string, m Mutant) (bool, error) {
+	p := filepath.Join(dir, m.File)
+	b, err := os.ReadFile(p)
+	if err != nil {
+		return false, nil // file gone: not applicable
+	}
+	s := string(b)
+	start := 0
+	if m.After != "" {
+		k := strings.Index(s, m.After)
+		if k < 0 {
+			return false, nil
+		}
+		start = k
+	}
+	k := strings.Index(s[start:], m.Old)
+	if k < 0 {
+		return false, nil
+	}
+	k += start
+	s = s[:k] + m.New + s[k+len(m.Old):]
+	return true, os.WriteFile(p, []byte(s), 0o644)
+}
+
+// dumpViolations runs this binary's -dump on dir and returns violated keys by rule.
+func dumpViolations(dir string, ruleIDs []string) (map[string]string, string, error) {
+	exe, err := os.Executable()
+	if err != nil {
+		return nil, "", err
+	}
+	cmd := exec.Command(exe, "-dump", "-json", "-repo", dir, "-rules", strings.Join(ruleIDs, ","))
+	var out, errb bytes.Buffer
+	cmd.Stdout = &out
+	cmd.Stderr = &errb
+	runErr := cmd.Run()
+	viol := map[string]string{}
+	sc := bufio.NewScanner(&out)
+	sc.Buffer(make([]byte, 1<<20), 1<<24)
+	broken := ""
+	for sc.Scan() {
+		line := sc.Text()
+		if strings.HasPrefix(line, "CHECK-BROKEN") {
+			broken = line
+			continue
+		}
+		if !strings.HasPrefix(line, "{") {
+			continue
+		}
+		var o Ob
+		if json.Unmarshal([]byte(line), &o) == nil && o.Verdict != Holds {
+			viol[o.Key] = o.Rule
+		}
+	}
+	if broken != "" {
+		return viol, broken + " " + lastLines(errb.String(), 3), nil
+	}
+	if runErr != nil {
+		return viol, "exit: " + runErr.Error(), nil
+	}
+	return viol, "", nil
+}
+
+func lastLines(s string, n int) string {
+	l := strings.Split(strings.TrimSpace(s), "\n")
+	if len(l) > n {
+		l = l[len(l)-n:]
+	}
+	return strings.Join(l, " | ")
+}
+
+func runSelftest(rs []*Rule, jobs int, filter string) selftestResult {
+	want := map[string]bool{}
+	var ruleIDs []string
+	for _, r := range rs {
+		want[r.ID] = true
+		ruleIDs = append(ruleIDs, r.ID)
+	}
+	var sel []Mutant
+	for _, m := range mutants {
+		if filter != "" && !strings.Contains(m.ID, filter) {
+			continue
+		}
+		for _, r := range m.Rules {
+			if want[r] {
+				sel = append(sel, m)
+				break
+			}
+		}
+	}
+	res := selftestResult{}
+	if len(sel) == 0 {
+		return res
+	}
+	base, err := os.MkdirTemp("", "mosslint-selftest-")
+	if err != nil {
+		broken("selftest: %v", err)
+	}
+	defer os.RemoveAll(base)
+
+	// baseline: violations already present on the unmutated tree
+	baseline, brk, err := dumpViolations(*flagRepo, ruleIDs)
+	if err != nil || brk != "" {
+		broken("selftest baseline: %v %s", err, brk)
+	}
+
+	var mu sync.Mutex
+	var wg sync.WaitGroup
+	sem := make(chan struct{}, jobs)
+	for _, m := range sel {
+		m := m
+		wg.Add(1)
+		sem <- struct{}{}
+		go func() {
+			defer wg.Done()
+			defer func() { <-sem }()
+			dir := filepath.Join(base, m.ID)
+			defer os.RemoveAll(dir)
+			if err := copyTree(*flagRepo, dir); err != nil {
+				mu.Lock()
+				res.NotApplicable = append(res.NotApplicable, m.ID+": copy failed: "+err.Error())
+				mu.Unlock()
+				return
+			}
+			ok, err := applyMutant(dir, m)
+			if err != nil || !ok {
+				mu.Lock()
+				res.NotApplicable = append(res.NotApplicable, m.ID+": edit site not present in the current tree")
+				mu.Unlock()
+				return
+			}
+			viol, brk, err := dumpViolations(dir, ruleIDs)
+			mu.Lock()
+			defer mu.Unlock()
+			if err != nil {
+				res.NotApplicable = append(res.NotApplicable, m.ID+": "+err.Error())
+				return
+			}
+			if strings.Contains(brk, "does not type-check") || strings.Contains(brk, "package errors") {
+				res.NotApplicable = append(res.NotApplicable, m.ID+": mutant does not compile on the current tree")
+				return
+			}
+			res.Applicable++
+			killed := false
+			for k, rule := range viol {
+				if _, pre := baseline[k]; pre {
+					continue
+				}
+				if !contains(m.Rules, rule) {
+					continue
+				}
+				if m.Expect != "" && !strings.Contains(k, m.Expect) {
+					continue
+				}
+				killed = true
+			}
+			if brk != "" && !killed {
+				// a checker that stops with CHECK-BROKEN did not report the construct
+				res.Survived = append(res.Survived, m.ID+" ("+brk+")")
+				return
+			}
+			if killed {
+				res.Killed++
+				res.KilledIDs = append(res.KilledIDs, m.ID)
+			} else {
+				res.Survived = append(res.Survived, m.ID)
+			}
+		}()
+	}
+	wg.Wait()
+	sort.Strings(res.NotApplicable)
+	sort.Strings(res.Survived)
+	sort.Strings(res.KilledIDs)
+	return res
+}
+
+func runSelftestCLI() int {
+	rs := selectedRules()
+	res := runSelftest(rs, *flagJobs, *flagMutants)
+	b, _ := json.MarshalIndent(res, "", " ")
+	fmt.Println(string(b))
+	if len(res.Survived) > 0 {
+		return 1
+	}
+	return 0
+}
